@@ -113,7 +113,7 @@ bool CodeWriterUtils::encode_offset32(uint32_t* dst, int64_t offset64, const Off
       uint32_t ja = ((~value >> 23) ^ (value >> 22)) & 1u;
       uint32_t jb = ((~value >> 23) ^ (value >> 21)) & 1u;
 
-      *dst = ia | ib | ic | (ja << 14) | (jb << 11);
+      *dst = ia | ib | ic | (ja << 13) | (jb << 11);
       return true;
     }
 
@@ -127,10 +127,10 @@ bool CodeWriterUtils::encode_offset32(uint32_t* dst, int64_t offset64, const Off
       uint32_t ia = (value & 0x0007FFu);
       uint32_t ib = (value & 0x01F800u) << (16 - 11);
       uint32_t ic = (value & 0x080000u) << (26 - 19);
-      uint32_t ja = ((~value >> 19) ^ (value >> 22)) & 1u;
-      uint32_t jb = ((~value >> 19) ^ (value >> 21)) & 1u;
+      uint32_t ja = (value >> 17) & 1u;
+      uint32_t jb = (value >> 18) & 1u;
 
-      *dst = ia | ib | ic | (ja << 14) | (jb << 11);
+      *dst = ia | ib | ic | (ja << 13) | (jb << 11);
       return true;
     }
 
